@@ -1162,6 +1162,32 @@ fn gen_c20(p: &Pools, rng: &mut Rng, pb: &mut PB) {
     }
 }
 
+/// C19 systematic part: for every compound type and every component position, a failure (or a distinct value)
+/// at exactly that position, cycling through the 12 x 12 scalar pairs
+fn cover_c19(out: &mut Vec<String>, pid: &mut u64) {
+    let types = ["Vector1", "Vector2", "Vector3", "Vector4", "Point1", "Point2", "Point3", "Matrix2", "Matrix3", "Matrix4", "Quaternion"];
+    let distinct = ["one", "two", "seven", "hundred", "zero", "one", "two", "seven", "hundred", "zero", "one", "two", "seven", "hundred", "zero", "one"];
+    let risky = ["max", "min", "neg1", "nan", "inf", "half", "p200", "p70000", "huge"];
+    let mut k = 0usize;
+    for ty in types.iter() {
+        let n = ncomp(ty);
+        for i in 0..n {
+            for r in risky.iter() {
+                k += 1;
+                let src = SCALARS[(k * 5) % 12];
+                let dst = if *ty == "Quaternion" { ["f32", "f64"][k % 2] } else { SCALARS[(k * 7 + k / 12) % 12] };
+                let mut pb = PB::new();
+                let mut a = vec![pb.load(t(ty)), pb.load(t(src)), pb.load(t(dst))];
+                for j in 0..n { a.push(pb.load(t(if j == i { r } else { distinct[(j + i) % 16] }))); }
+                pb.call("cast", "m", &a);
+                pb.fsafe = true;
+                *pid += 1;
+                if let Some(s) = pb.finish(*pid, &["f64"]) { out.push(s); }
+            }
+        }
+    }
+}
+
 pub fn drive2(profile: &str, seed: u64, count: usize) -> Vec<String> {
     let gen: fn(&Pools, &mut Rng, &mut PB) = match profile {
         "C05" => gen_c05, "C06" => gen_c06, "C07" => gen_c07, "C08" => gen_c08, "C09" => gen_c09, "C10" => gen_c10,
@@ -1189,5 +1215,6 @@ pub fn drive2(profile: &str, seed: u64, count: usize) -> Vec<String> {
         if profile == "C19" || profile == "C20" { pb.fsafe = true; }
         if let Some(s) = pb.finish(pid, scs) { out.push(s); }
     }
+    if profile == "C19" { cover_c19(&mut out, &mut pid); }
     out
 }
